@@ -43,6 +43,7 @@ func checkC10(p *Prog, r *Report) {
 	c10HostID(p, r)
 	c10Tokens(p, r)
 	c10MetadataImmutable(p, r)
+	c10PrepareAgrees(p, r)
 }
 
 func exprString(e ast.Expr) string {
@@ -973,4 +974,125 @@ func c10MetadataImmutable(p *Prog, r *Report) {
 		})
 	}
 	r.check(len(bad) == 0, rule, "ColumnMetadata writers", "", fmt.Sprintf("%d field stores, all into local copies", nst), strings.Join(dedupe(bad), " || "))
+}
+
+// c10PrepareAgrees: the columns a handled SELECT is prepared with (the metadata the client keeps)
+// and the columns it is answered with are chosen among the same column tables.
+func c10PrepareAgrees(p *Prog, r *Report) {
+	const rule = "C10.prepare-agrees"
+	r.Rule(rule, "the set of column tables a handled SELECT can be resolved against when it is prepared equals the set it can be resolved against when it is answered (QUERY / EXECUTE): the result metadata a client was given at PREPARE is the metadata of the rows it gets later, for plain and DSE backends alike")
+	// column tables held by the name map
+	mapVals := map[string]bool{}
+	if e, _ := p.astGlobalInit("parser", "SystemColumnsByName"); e != nil {
+		if cl, ok := e.(*ast.CompositeLit); ok {
+			for _, el := range cl.Elts {
+				if kv, ok := el.(*ast.KeyValueExpr); ok {
+					mapVals[exprString(kv.Value)] = true
+				}
+			}
+		}
+	}
+	isTableGlobal := func(g *ssa.Global) bool {
+		pt, ok := g.Type().(*types.Pointer)
+		if !ok {
+			return false
+		}
+		switch pt.Elem().Underlying().(type) {
+		case *types.Slice, *types.Map:
+			return strings.Contains(g.Name(), "Columns") || strings.HasPrefix(g.Name(), "System")
+		}
+		return false
+	}
+	var tablesOfFn func(fn *ssa.Function, depth int, into map[string]bool)
+	addGlobal := func(g *ssa.Global, into map[string]bool) {
+		if !isTableGlobal(g) {
+			return
+		}
+		if g.Name() == "SystemColumnsByName" {
+			for k := range mapVals {
+				into[k] = true
+			}
+			return
+		}
+		into[g.Name()] = true
+	}
+	tablesOfFn = func(fn *ssa.Function, depth int, into map[string]bool) {
+		eachInstr(fn, func(in ssa.Instruction) {
+			if ld, ok := in.(*ssa.UnOp); ok {
+				if g, ok := ld.X.(*ssa.Global); ok {
+					addGlobal(g, into)
+				}
+			}
+			if c, ok := in.(*ssa.Call); ok && depth > 0 {
+				if callee := c.Call.StaticCallee(); callee != nil && p.InRepo(callee) && callee.Blocks != nil {
+					tablesOfFn(callee, depth-1, into)
+				}
+			}
+		})
+	}
+	tablesOf := func(v ssa.Value, into map[string]bool) {
+		for _, o := range origins(v) {
+			switch x := o.(type) {
+			case *ssa.Extract:
+				if call, ok := x.Tuple.(*ssa.Call); ok && call.Call.StaticCallee() != nil {
+					tablesOfFn(call.Call.StaticCallee(), 2, into)
+				} else if lk, ok := x.Tuple.(*ssa.Lookup); ok {
+					for _, mo := range origins(lk.X) {
+						if ld, ok := mo.(*ssa.UnOp); ok {
+							if g, ok := ld.X.(*ssa.Global); ok {
+								addGlobal(g, into)
+							}
+						}
+					}
+				}
+			case *ssa.Call:
+				if x.Call.StaticCallee() != nil {
+					tablesOfFn(x.Call.StaticCallee(), 2, into)
+				}
+			case *ssa.Lookup:
+				for _, mo := range origins(x.X) {
+					if ld, ok := mo.(*ssa.UnOp); ok {
+						if g, ok := ld.X.(*ssa.Global); ok {
+							addGlobal(g, into)
+						}
+					}
+				}
+			case *ssa.UnOp:
+				if g, ok := x.X.(*ssa.Global); ok {
+					addGlobal(g, into)
+				}
+			}
+		}
+	}
+	prep, answer := map[string]bool{}, map[string]bool{}
+	nprep, nans := 0, 0
+	for _, fn := range p.ScopedFuncs("proxy") {
+		// a PREPARE site: the function also builds the PreparedResult sent to the client
+		buildsPrepared := len(structLits(rootFn(fn), func(t types.Type) bool { return typeIs(t, "message", "PreparedResult") })) > 0
+		eachCall(fn, func(c ssa.CallInstruction) {
+			if !callIsFunc(c, "parser", "FilterColumns") {
+				return
+			}
+			if buildsPrepared {
+				nprep++
+				tablesOf(c.Common().Args[1], prep)
+			} else {
+				nans++
+				tablesOf(c.Common().Args[1], answer)
+			}
+		})
+	}
+	if nprep == 0 || nans == 0 {
+		fatalf("rule %s: %d prepare and %d answer sites resolve selectors (1 and 2 confirmed by hand)", rule, nprep, nans)
+	}
+	// the answer path's other tables (legacy schema_* tables answered without selector resolution) are not compared:
+	// compare on the tables the answer sites can use
+	var bad []string
+	for t := range answer {
+		if !prep[t] {
+			bad = append(bad, "rows can be produced with the columns of "+t+" but a statement is never prepared against that table: the metadata returned by PREPARE does not describe the rows of EXECUTE")
+		}
+	}
+	sort.Strings(bad)
+	r.check(len(bad) == 0, rule, "prepare vs answer column tables", "", fmt.Sprintf("%d prepare site(s) over %v; %d answer site(s) over %v", nprep, sortedKeys(prep), nans, sortedKeys(answer)), strings.Join(bad, " || "))
 }
